@@ -194,6 +194,7 @@ static void collectElements(const QDomElement &el, QList<QDomElement> &out);
 struct Seed {
     QByteArray xml;
     QString root, ns;
+    bool topLevel = false;
 };
 
 static std::vector<Seed> loadSeeds(const char *path)
@@ -210,7 +211,7 @@ static std::vector<Seed> loadSeeds(const char *path)
         QByteArray xml = o["xml"].toString().toUtf8();
         QDomDocument d;
         if (!parseDoc(xml, d)) continue;
-        seeds.push_back({ xml, o["root"].toString(), o["ns"].toString() });
+        seeds.push_back({ xml, o["root"].toString(), o["ns"].toString(), true });
     }
     // every descendant element of a seed is a seed of its own (payload classes are parsed from their own element)
     std::set<QString> seen;
@@ -265,6 +266,49 @@ static const char *HOSTILE_STR[] = { "", " ", "unknown-enum-value", "ERROR", "ge
 static const char *NAMESPACES[] = { "jabber:client", "jabber:server", "urn:xmpp:sm:3", "urn:xmpp:sasl:2", "jabber:x:data", "urn:xmpp:jingle:1", "http://jabber.org/protocol/pubsub",
                                     "http://jabber.org/protocol/pubsub#event", "urn:xmpp:mix:core:1", "urn:xmpp:forward:0", "urn:xmpp:carbons:2", "urn:ietf:params:xml:ns:xmpp-stanzas",
                                     "urn:xmpp:sce:1", "urn:xmpp:tm:1", "urn:xmpp:sfs:0", "urn:xmpp:file:metadata:0", "garbage:ns", "" };
+
+// elements of the corpus grouped by namespace: "another word of the same vocabulary" (e.g. a second error condition)
+static std::map<QString, std::vector<QByteArray>> g_vocab;
+static void buildVocabulary(const std::vector<Seed> &seeds)
+{
+    std::map<QString, std::set<QString>> seen;
+    for (const auto &sd : seeds) {
+        QDomDocument d;
+        if (!parseDoc(sd.xml, d)) continue;
+        QList<QDomElement> els;
+        collectElements(d.documentElement(), els);
+        for (const auto &e : els) {
+            const QString ns = e.namespaceURI();
+            const QString key = (e.localName().isEmpty() ? e.tagName() : e.localName()) + (e.text().isEmpty() ? u""_s : u"+text"_s);
+            if (g_vocab[ns].size() >= 96 || !seen[ns].insert(key).second) continue;
+            QDomDocument sub;
+            auto imported = sub.importNode(e, true).toElement();
+            sub.appendChild(imported);
+            if (!ns.isEmpty() && !imported.hasAttribute(u"xmlns"_s) && imported.prefix().isEmpty()) imported.setAttribute(u"xmlns"_s, ns);
+            const QByteArray bytes = sub.toByteArray(-1);
+            if (bytes.size() < 3000) g_vocab[ns].push_back(bytes);
+        }
+    }
+}
+// inserts next to el an element of el's own namespace taken from the corpus (different local name preferred)
+template<class Rng>
+static bool addVocabularySibling(QDomDocument &doc, QDomElement el, Rng &rng)
+{
+    if (el == doc.documentElement()) return false;
+    auto it = g_vocab.find(el.namespaceURI());
+    if (it == g_vocab.end() || it->second.size() < 2) return false;
+    for (int tries = 0; tries < 4; tries++) {
+        QDomDocument other;
+        if (!parseDoc(it->second[rng() % it->second.size()], other)) continue;
+        auto oe = other.documentElement();
+        if (tries < 3 && oe.localName() == el.localName()) continue;
+        auto sub = doc.importNode(oe, true);
+        if (rng() % 2) el.parentNode().insertAfter(sub, el);
+        else el.parentNode().insertBefore(sub, el);
+        return true;
+    }
+    return false;
+}
 
 struct Mutator {
     std::mt19937_64 &rng;
@@ -413,10 +457,14 @@ struct Mutator {
             }
             break;
         }
+        case 16: {  // a sibling from the same vocabulary
+            addVocabularySibling(doc, el, rng);
+            break;
+        }
         }
     }
 };
-static const int N_OPS = 16;
+static const int N_OPS = 17;
 
 struct ParserStats {
     long admitted = 0, parsed = 0, fixpoint = 0;
@@ -436,15 +484,49 @@ static void runC02(int argc, char **argv)
     std::map<int, long> opTotal;
     long applications = 0;
     const long startCase = qEnvironmentVariableIntValue("VERIF_START_CASE");
-    for (long c = startCase; c < ncases; c++) {
+    buildVocabulary(seeds);
+    // systematic pass after the random cases: every element of every top-level seed document gets VERIF_SIB siblings from its own vocabulary
+    struct SibCase {
+        size_t seed;
+        int element, j;
+    };
+    std::vector<SibCase> sib;
+    const int sibPer = qEnvironmentVariableIntValue("VERIF_SIB");
+    const int nworkers = qMax(1, qEnvironmentVariableIntValue("VERIF_NWORKERS"));
+    if (sibPer > 0) {
+        for (size_t si = 0; si < seeds.size(); si++) {
+            if (!seeds[si].topLevel || int(si % size_t(nworkers)) != worker % nworkers) continue;
+            QDomDocument d;
+            parseDoc(seeds[si].xml, d);
+            QList<QDomElement> els;
+            collectElements(d.documentElement(), els);
+            for (int k = 1; k < els.size() && k < 60; k++) {
+                auto it = g_vocab.find(els[k].namespaceURI());
+                if (it == g_vocab.end() || it->second.size() < 2) continue;
+                for (int j = 0; j < sibPer; j++) sib.push_back({ si, k, j });
+            }
+        }
+    }
+    long sibCases = 0;
+    for (long c = startCase; c < ncases + long(sib.size()); c++) {
         if (only >= 0 && c != only) continue;
         std::mt19937_64 rng(seed * 1000003ull + quint64(worker) * 7919ull + quint64(c) * 104729ull);
         Mutator mut { rng, seeds, {}, false };
         QDomDocument doc;
+        if (c >= ncases) {
+            const auto &sc = sib[size_t(c - ncases)];
+            parseDoc(seeds[sc.seed].xml, doc);
+            QList<QDomElement> els;
+            collectElements(doc.documentElement(), els);
+            if (!addVocabularySibling(doc, els[sc.element], rng)) continue;
+            sibCases++;
+            opTotal[16]++;
+        } else {
         parseDoc(seeds[(size_t(c) * 16 + size_t(worker) + rng() % 3) % seeds.size()].xml, doc);
         int nops = (rng() % 8 == 0) ? 0 : 1 + int(rng() % 3);
         for (int i = 0; i < nops; i++) mut.apply(doc, int(rng() % N_OPS));
         for (auto &kv : mut.opCount) opTotal[kv.first] += kv.second;
+        }
         // serialize and re-parse so parsers see exactly what would arrive from the wire
         const QByteArray docBytes = doc.toByteArray(-1);
         g_currentCase = c;
@@ -501,7 +583,8 @@ static void runC02(int argc, char **argv)
     }
     QJsonObject sum;
     sum["summary"] = true;
-    sum["cases"] = double(ncases);
+    sum["cases"] = double(ncases + sibCases);
+    sum["systematic_sibling_cases"] = double(sibCases);
     sum["applications"] = double(applications);
     sum["violations"] = double(rep.violations);
     QJsonObject per;
@@ -513,6 +596,72 @@ static void runC02(int argc, char **argv)
     for (auto &kv : opTotal) ops[QString::number(kv.first)] = double(kv.second);
     sum["ops"] = ops;
     emitJson(sum);
+}
+
+// ------------------------------------------------------------------------------------------------ C02 live half: mutated stanzas for a connected client
+
+// emit <seeds> <seed> <worker> <n>: n mutated stanzas (root message/presence/iq; payload seeds are wrapped into a stanza), one JSON line each
+static void runEmit(int, char **argv)
+{
+    auto seeds = loadSeeds(argv[2]);
+    const quint64 seed = strtoull(argv[3], nullptr, 10);
+    const int worker = atoi(argv[4]);
+    const long n = atol(argv[5]);
+    buildVocabulary(seeds);
+    static const char *FROMS[] = { "", "alice@example.org", "example.org", "alice@example.org/res1", "bob@example.org/r", "room@conference.example.org/nick", "pubsub.example.org" };
+    long emitted = 0;
+    for (long c = 0; emitted < n && c < n * 20; c++) {
+        std::mt19937_64 rng(seed * 1000003ull + quint64(worker) * 7919ull + quint64(c) * 104729ull + 17);
+        Mutator mut { rng, seeds, {}, false };
+        QDomDocument doc;
+        const Seed &sd = seeds[rng() % seeds.size()];
+        parseDoc(sd.xml, doc);
+        auto root = doc.documentElement();
+        const QString rt = root.tagName();
+        if (rt != u"message" && rt != u"presence" && rt != u"iq") {
+            // payload: wrap into a stanza that could carry it
+            QDomDocument w;
+            const int kind = int(rng() % 4);
+            auto st = w.createElement(kind == 0 ? u"message"_s : kind == 1 ? u"presence"_s : u"iq"_s);
+            if (kind >= 2) {
+                static const char *T[] = { "get", "set", "result", "error" };
+                st.setAttribute(u"type"_s, QString::fromLatin1(T[rng() % 4]));
+                st.setAttribute(u"id"_s, u"live-%1-%2"_s.arg(worker).arg(c));
+            }
+            w.appendChild(st);
+            st.appendChild(w.importNode(root, true));
+            doc = w;
+            root = doc.documentElement();
+        }
+        int nops = (rng() % 4 == 0) ? 0 : 1 + int(rng() % 3);
+        for (int i = 0; i < nops; i++) {
+            int op = int(rng() % N_OPS);
+            if (op == 9 || op == 10) op = 7;  // depth and size are the codec half's business; the wire is kept fast
+            mut.apply(doc, op);
+        }
+        root = doc.documentElement();
+        if (rng() % 2) {
+            const char *f = FROMS[rng() % (sizeof(FROMS) / sizeof(char *))];
+            if (*f) root.setAttribute(u"from"_s, QString::fromLatin1(f));
+            else root.removeAttribute(u"from"_s);
+        }
+        if (rng() % 2) root.setAttribute(u"to"_s, u"alice@example.org/res1"_s);
+        if (root.tagName() == u"iq" && rng() % 10) {
+            // an IQ without one of the four types makes the client end the session (by design): keep most of them typed
+            static const char *T[] = { "get", "set", "result", "error" };
+            const QString t = root.attribute(u"type"_s);
+            if (t != u"get" && t != u"set" && t != u"result" && t != u"error") root.setAttribute(u"type"_s, QString::fromLatin1(T[rng() % 4]));
+        }
+        // the stream's default namespace
+        if (root.hasAttribute(u"xmlns"_s)) root.removeAttribute(u"xmlns"_s);
+        const QByteArray bytes = doc.toByteArray(-1);
+        QDomDocument chk;
+        if (bytes.size() > 30000 || !chk.setContent("<stream:stream xmlns='jabber:client' xmlns:stream='http://etherx.jabber.org/streams'>" + bytes + "</stream:stream>", true)) continue;
+        const QString t = chk.documentElement().firstChildElement().tagName();
+        if (t != u"message" && t != u"presence" && t != u"iq") continue;
+        emitJson(QJsonObject { { "xml", QString::fromUtf8(bytes) }, { "case", double(c) } });
+        emitted++;
+    }
 }
 
 // ------------------------------------------------------------------------------------------------ C01 document level
@@ -917,6 +1066,10 @@ int main(int argc, char **argv)
     }
     if (mode == "c01doc" && argc >= 7) {
         runC01Doc(argc, argv);
+        return 0;
+    }
+    if (mode == "emit" && argc >= 6) {
+        runEmit(argc, argv);
         return 0;
     }
     if (mode == "scalars") {
